@@ -82,7 +82,10 @@ def gen_program(rng, size):
         v = rng.choice(cands if rng.random() < 0.95 else regs(["int", "lit", "bool"]) or cands)
         if seeds_ and rng.random() < 0.35:
             v = rng.choice(seeds_)
-        emit({"op": "out", "v": v, "name": f"o{i}", "party": rng.choice(regs(["party"]))}, "out")
+        oname = f"o{i}"
+        if i > 0 and rng.random() < 0.12:
+            oname = f"o{rng.randrange(i)}"      # two outputs under one name (both sides accept that; both are delivered)
+        emit({"op": "out", "v": v, "name": oname, "party": rng.choice(regs(["party"]))}, "out")
     return cmds
 
 
@@ -160,6 +163,33 @@ def real_signature(src):
             "inputs": [[getattr(i, "name", None), getattr(getattr(i, "party", None), "name", None),
                         getattr(getattr(i, "_type", None), "__name__", None)] for i in ins],
             "outputs": [[o.name, o.party.name, type(o.value).__name__] for o in outs]}
+
+
+def extract_signature(raw):
+    ps, ins, outs = raw
+    return {"parties": [p.name for p in ps],
+            "inputs": [[getattr(i, "name", None), getattr(getattr(i, "party", None), "name", None),
+                        getattr(getattr(i, "_type", None), "__name__", None)] for i in ins],
+            "outputs": [[o.name, o.party.name, type(o.value).__name__] for o in outs]}
+
+
+def signature_survives(src1, src2):
+    """the signature of a program is a value: auditing another program afterwards does not change what was returned"""
+    import nada_dsl.audit.abstract as A
+    try:
+        with contextlib.redirect_stdout(io.StringIO()):
+            raw1 = A.signature(src1)
+            before = extract_signature(raw1)
+            try:
+                A.signature(src2)
+            except Exception:  # pylint: disable=broad-except
+                pass
+            after = extract_signature(raw1)
+    except Exception:  # pylint: disable=broad-except
+        return None
+    if before != after:
+        return f"signature of the first program before auditing the second: {before}; read again afterwards: {after}"
+    return None
 
 
 def real_compile(src):
@@ -321,6 +351,14 @@ def run(res, tier):
         cmds = gen_program(rng, rng.randint(1, size))
         ml = rng.choice([0, 0, 0, rng.randint(1, len(cmds))])
         progs.append((cmds, ml))
+    # a batch: the signature of one program is read again after the next program was audited
+    batch = [render(R.make(f"b{i}"), c, ml) for i, (c, ml) in enumerate(progs[:24 if tier == "quick" else 200])]
+    for s1, s2 in zip(batch, batch[1:]):
+        why = signature_survives(s1, s2)
+        if why:
+            res.violation({"property": "C18", "kind": "signature-changed-by-later-audit", "first": s1, "second": s2, "text": why},
+                          f"two programs audited in one process: {why}"[:400])
+            break
     reset_globals()
     answers = core.driver([{"k": "sig", "cmds": c} for c, _ in progs])
     evals = both = nontrivial = 0
@@ -404,6 +442,12 @@ def run(res, tier):
 
 
 def replay(obj):
+    if obj.get("kind") == "signature-changed-by-later-audit":
+        why = signature_survives(obj["first"], obj["second"])
+        print(why or "unchanged")
+        if why:
+            print("VIOLATION property=C18 replay=(replayed)")
+        return 1 if why else 0
     v, sig, mir = judge(obj["cmds"], obj["source"])
     v = [(k, t) for k, t in v if not known_stale(k, obj["cmds"], sig, mir)]
     print(json.dumps({"signature": sig, "mir_interface": mir, "violations": v}, default=str)[:2000])
